@@ -6,9 +6,11 @@ A model step returns (new_state, outcome) with outcome "ok" or the tuple of acce
 """
 import copy
 
-from mc.models import nvra
+from mc.models import nvra   # noqa
 
-BINARY_ARCHES = {"x86_64", "i386", "noarch", "aarch64", "ppc64le", "s390x", "armhfp"}
+from mc.models import ids
+
+BINARY_ARCHES = set(ids.BINARY_ARCHES_DOC)
 SOURCE_ARCHES = {"src", "nosrc"}
 CATEGORIES = {"binary", "debug", "source"}
 REFUSE = ("ValueError", "TypeError")
